@@ -45,6 +45,7 @@ type hostile struct {
 	ke      *netlab.KEServer
 	keys    struct{ c2s, s2c []byte }
 	keRecs  []byte
+	keHold  bool // the key-exchange server keeps the connection open after what it wrote (slow / silent peer)
 	last    []byte
 	reqCh   chan buildReq // requests are handed to the test goroutine, which owns all random draws
 	active  bool
@@ -117,7 +118,7 @@ func getHost() (*hostile, error) {
 			c2s, s2c, _ := c.Keys()
 			h.mu.Lock()
 			h.keys.c2s, h.keys.s2c = c2s, s2c
-			recs := h.keRecs
+			recs, hold := h.keRecs, h.keHold
 			h.mu.Unlock()
 			if recs == nil { // conformant: 8 cookies, NTP server = this host
 				rs := []netlab.Rec{{Type: netlab.RecNextProto, Critical: true, Body: netlab.U16(0)}, {Type: netlab.RecAEAD, Critical: true, Body: netlab.U16(15)},
@@ -129,6 +130,9 @@ func getHost() (*hostile, error) {
 				recs = netlab.EncodeRecs(rs)
 			}
 			c.WriteSegments(recs, []int{700})
+			if hold {
+				time.Sleep(14 * time.Second) // longer than the harness waits for the client call to return
+			}
 		})
 		host = h
 	})
@@ -390,59 +394,68 @@ func TestPropClientResponses(t *testing.T) {
 		derived := false
 		// reply builders draw from t: they run on this (the test's) goroutine, fed through h.reqCh
 		var build func(req []byte, port int) [][]byte
-		h.mu.Lock()
-		h.keRecs = nil
-		switch c.Kind {
-		case "ipclient":
-			build = func(req []byte, _ int) [][]byte {
-				var out [][]byte
-				for i := rapid.IntRange(1, 3).Draw(t, "nreplies"); i > 0; i-- {
-					b, note := mutateNTPReply(t, genuineNTPReply(req))
-					out = append(out, b)
+		callWait := 3 * time.Second
+		func() {
+			h.mu.Lock()
+			defer h.mu.Unlock() // draws below may unwind (rapid stops a case by panicking): never leave the lock held
+			h.keRecs, h.keHold = nil, false
+			switch c.Kind {
+			case "ipclient":
+				build = func(req []byte, _ int) [][]byte {
+					var out [][]byte
+					for i := rapid.IntRange(1, 3).Draw(t, "nreplies"); i > 0; i-- {
+						b, note := mutateNTPReply(t, genuineNTPReply(req))
+						out = append(out, b)
+						log = append(log, note)
+						c.Replies = append(c.Replies, reply{hx(b[:min(len(b), 100)]), note})
+					}
+					derived = true
+					return out
+				}
+			case "ipclient-nts":
+				build = func(req []byte, _ int) [][]byte {
+					h.mu.Lock()
+					k := h.keys.s2c
+					h.mu.Unlock()
+					b, note := ntsReply(t, req, genuineNTPReply(req), k)
 					log = append(log, note)
-					c.Replies = append(c.Replies, reply{hx(b[:min(len(b), 100)]), note})
+					c.Replies = append(c.Replies, reply{hx(b[:min(len(b), 160)]), note})
+					derived = true
+					return [][]byte{b}
 				}
-				derived = true
-				return out
-			}
-		case "ipclient-nts":
-			build = func(req []byte, _ int) [][]byte {
-				h.mu.Lock()
-				k := h.keys.s2c
-				h.mu.Unlock()
-				b, note := ntsReply(t, req, genuineNTPReply(req), k)
-				log = append(log, note)
-				c.Replies = append(c.Replies, reply{hx(b[:min(len(b), 160)]), note})
-				derived = true
-				return [][]byte{b}
-			}
-		case "scionclient", "scionclient-auth":
-			build = func(req []byte, _ int) [][]byte {
-				out := scionReplies(t, req)
-				for _, b := range out {
-					c.Replies = append(c.Replies, reply{hx(b[:min(len(b), 160)]), "scion"})
+			case "scionclient", "scionclient-auth":
+				build = func(req []byte, _ int) [][]byte {
+					out := scionReplies(t, req)
+					for _, b := range out {
+						c.Replies = append(c.Replies, reply{hx(b[:min(len(b), 160)]), "scion"})
+					}
+					derived = true
+					return out
 				}
-				derived = true
-				return out
-			}
-		case "csptpclient":
-			build = func(req []byte, port int) [][]byte {
-				out := csptpReplies(t, req, port)
-				for _, b := range out {
-					c.Replies = append(c.Replies, reply{hx(b), "csptp"})
+			case "csptpclient":
+				build = func(req []byte, port int) [][]byte {
+					out := csptpReplies(t, req, port)
+					for _, b := range out {
+						c.Replies = append(c.Replies, reply{hx(b), "csptp"})
+					}
+					derived = true
+					return out
 				}
-				derived = true
-				return out
+			case "fetch":
+				it := genKEItem(t)
+				if it.Target == "ntske-raw" {
+					it = genKEItem(t)
+				}
+				// one exchange in eight: the server stops there but keeps the connection open (longer than this harness waits)
+				hold := rapid.IntRange(0, 7).Draw(t, "ke-hold") == 0
+				h.keRecs, h.keHold = it.data(), hold
+				if hold {
+					c.Rounds = 1
+					callWait = 12 * time.Second // connection establishment and the record exchange are bounded by 5 s each
+				}
+				c.Replies = append(c.Replies, reply{it.Hex, "ke-stream" + map[bool]string{true: " (connection held open)", false: ""}[hold]})
 			}
-		case "fetch":
-			it := genKEItem(t)
-			if it.Target == "ntske-raw" {
-				it = genKEItem(t)
-			}
-			h.keRecs = it.data()
-			c.Replies = append(c.Replies, reply{it.Hex, "ke-stream"})
-		}
-		h.mu.Unlock()
+		}()
 		var line string
 		switch c.Kind {
 		case "ipclient":
@@ -460,7 +473,7 @@ func TestPropClientResponses(t *testing.T) {
 		h.active = build != nil
 		h.mu.Unlock()
 		for r := 0; r < c.Rounds; r++ {
-			ok := serveCall(v, h, line, build, 3*time.Second)
+			ok := serveCall(v, h, line, build, callWait)
 			if !v.alive() {
 				time.Sleep(50 * time.Millisecond)
 				trace := v.stderrTail()
@@ -473,7 +486,7 @@ func TestPropClientResponses(t *testing.T) {
 			}
 			if !ok {
 				v.kill()
-				t.Fatalf("client call %q did not return within 3 s (deadline 120 ms) when answered with %v; replies %+v", line, log, c.Replies)
+				t.Fatalf("client call %q did not return within %v (deadline 120 ms) when answered with %v; replies %+v", line, callWait, log, c.Replies)
 			}
 		}
 		h.mu.Lock()
